@@ -232,8 +232,8 @@ Definition deliver (g : gridspec) (in_u : uspec) (e : entry) : pull_res :=
                 else amap (convert (e_units e) in_u) (e_arr e) in        (* xdata.to(units) *)
        if check_delivered g (a_shape a) then RArr a in_u else RData.
 
-Definition lpull (g : gridspec) (in_u : uspec) (s : lstate) (t : Z) : lstate * pull_res :=
-  match OutputM.get_data s 0%nat t with
+Definition lpull (g : gridspec) (in_u : uspec) (s : lstate) (k : nat) (t : Z) : lstate * pull_res :=
+  match OutputM.get_data s k t with
   | (s', Ok e) => (s', deliver g in_u e)
   | (s', ErrTime) => (s', RTime)
   | (s', ErrNoData) => (s', RNoData)
@@ -242,15 +242,17 @@ Definition lpull (g : gridspec) (in_u : uspec) (s : lstate) (t : Z) : lstate * p
 (* ------------------------------------------------------------------ *)
 (** * Op sequences on one link *)
 
-Inductive lop := LPush (t : Z) (p : payload) | LPull (t : Z).
+Inductive lop := LPush (t : Z) (p : payload) | LPull (k : nat) (t : Z).   (* k: the pulling consumer *)
 Inductive lobs := OPush (r : option ecls) | OPull (r : pull_res).
 
-Record lcfg := mkC { c_out : info; c_in_units : uspec }.
+(** one output, consumers 0..n-1 (final inputs, directly linked or behind pass-through adapters), each with its units *)
+Record lcfg := mkC { c_out : info; c_in_units : list uspec }.
+Definition cons_units (c : lcfg) (k : nat) : uspec := nth k (c_in_units c) (i_units (c_out c)).
 
 Definition lstep (c : lcfg) (s : lstate) (o : lop) : lstate * lobs :=
   match o with
   | LPush t p => let '(s', r) := lpush (c_out c) s t p in (s', OPush r)
-  | LPull t => let '(s', r) := lpull (i_grid (c_out c)) (c_in_units c) s t in (s', OPull r)
+  | LPull k t => let '(s', r) := lpull (i_grid (c_out c)) (cons_units c k) s k t in (s', OPull r)
   end.
 
 Fixpoint lrun (c : lcfg) (s : lstate) (ops : list lop) : list lobs :=
@@ -259,14 +261,14 @@ Fixpoint lrun (c : lcfg) (s : lstate) (ops : list lop) : list lobs :=
   | o :: r => let '(s', x) := lstep c s o in x :: lrun c s' r
   end.
 
-Definition linit : lstate := OutputM.init [0%nat].
+Definition linit (c : lcfg) : lstate := OutputM.init (seq 0 (length (c_in_units c))).
 
 (* ------------------------------------------------------------------ *)
 (** * Correspondence interface *)
 
 Definition c08_case : Type := lcfg * list lop.
 Definition c08_obs : Type := list lobs.
-Definition c08_model (c : c08_case) : c08_obs := lrun (fst c) linit (snd c).
+Definition c08_model (c : c08_case) : c08_obs := lrun (fst c) (linit (fst c)) (snd c).
 
 (** floats of the implementation against exact rationals of the model:
     |m - o| <= 2^-40 * max(1, |m|) *)
